@@ -128,6 +128,18 @@ func (st *State) Arith(op token.Token, x, y *IntV, pos string) *IntV {
 		st.Events = append(st.Events, Event{Kind: "wrap", Pos: pos, Msg: fmt.Sprintf("%s may leave %s%d", def, map[bool]string{true: "int", false: "uint"}[signed], w)})
 		return st.freshInt("wrap:"+def, w, signed)
 	}
+	if cx, ok := st.ConstOf(x); ok {
+		if cy, ok := st.ConstOf(y); ok {
+			switch op {
+			case token.ADD:
+				return mkConst(signExtend(uint64(cx)+uint64(cy), w, signed), w, signed)
+			case token.SUB:
+				return mkConst(signExtend(uint64(cx)-uint64(cy), w, signed), w, signed)
+			case token.MUL:
+				return mkConst(signExtend(uint64(cx)*uint64(cy), w, signed), w, signed)
+			}
+		}
+	}
 	switch op {
 	case token.ADD, token.SUB:
 		sgn := int64(1)
@@ -212,7 +224,7 @@ func (st *State) Arith(op token.Token, x, y *IntV, pos string) *IntV {
 				return mkConst(cx/c, w, signed)
 			}
 			if k, p2 := isPow2(c); p2 && xl >= 0 {
-				return st.Shift(token.SHR, x, k)
+				return st.ShiftR(x, k)
 			}
 			dl, dh := divRange(xl, xh, c)
 			return st.derived(fmt.Sprintf("quo(%s,%d)", st.ident(x), c), w, signed, dl, dh)
@@ -422,4 +434,18 @@ func (st *State) Compl(x *IntV) *IntV {
 		out[i] = bitNot(bx[i])
 	}
 	return &IntV{W: x.W, Signed: x.Signed, Bits: out}
+}
+
+// ShiftR: x >> k for a constant k, keeping the interval of the quotient next to its bit view.
+func (st *State) ShiftR(x *IntV, k int) *IntV {
+	r := st.Shift(token.SHR, x, k)
+	xl, xh := st.Range(x)
+	if _, isC := st.ConstOf(r); !isC && r.Bits != nil && xl >= 0 && k < 63 {
+		t := st.termOf0(r)
+		if sy, ok := t.SingleSym(); ok && sy.DefBits != nil {
+			st.refineSym(sy, xl>>uint(k), xh>>uint(k))
+			return &IntV{W: x.W, Signed: x.Signed, T: t, Bits: r.Bits}
+		}
+	}
+	return r
 }
